@@ -9,7 +9,7 @@ from ..abstools import *
 from ..absint import CTX, GenList
 from ..absval import Raised, Closure, f_sqrt
 from ..core import AnalysisError, own_nodes, norm, parents
-from ..effects import Effects
+from ..effects import Effects, Resolver
 from .. import rules, estyping
 
 LEVEL_TEXT = ('static analysis: (D1) do_segmetrics interpreted with tagged statistics: every location statistic is applied to exactly the bins '
@@ -266,7 +266,20 @@ def d2(chk, prog):
         model.ext["np.fromiter"] = lambda it, gen, dtype=None, count=-1, seen=seen, **k: seen.setdefault("dist", (list(it.iterate(gen)), count)) and "DIST"
         model.ext["np.array"] = lambda it, x: Vec(list(x))
         model.ext["np.percentile"] = lambda it, d, q, seen=seen: seen.setdefault("q", (d, list(it.iterate(q)))) and ("LO", "HI")
-        model.prims[f"{SM}._smooth_samples_by_weight"] = lambda it, values, samples, seen=seen: seen.setdefault("smoothed", True) and [(("SM", v), w) for v, w in it.iterate(samples)]
+        # the smoothing step: whichever repository function confidence_interval_bootstrap calls that draws Gaussian noise (found by that effect, not by its name or
+        # module); it is summarised as "noise added to every replicate's values, weights unchanged" -- the replicates are its argument that holds (values, weights) pairs
+        def smooth(it, *a, seen=seen, **k):
+            seen.setdefault("smoothed", True)
+            for cand in list(a) + list(k.values()):
+                try:
+                    pairs = [tuple(p_) for p_ in it.iterate(cand)]
+                except Exception:
+                    continue
+                if pairs and all(isinstance(p_, tuple) and len(p_) == 2 for p_ in pairs):
+                    return [(("SM", v), w) for v, w in pairs]
+            raise Undecided("smoothing helper called without a list of (values, weights) replicates")
+        for helper in _noise_helpers(prog, fc):
+            model.prims[helper.qn] = smooth
 
         class Vals:
             def abs_len(self):
@@ -320,8 +333,15 @@ def d2(chk, prog):
 def d3(chk, prog):
     chk.clause("D3", "reproducible CI: every draw in segmetrics.py is seeded with a constant")
     eff = Effects(prog)
-    sites = [(fi, n, kind, name) for fi, n, kind, name in rules.rng_sites(prog) if fi.mod == SM]
-    chk.floor("RNG draws in segmetrics", len(sites), 2)
+    # every draw in segmetrics.py and in whatever its statistics call, in any module (a resampling helper may live elsewhere)
+    from .C10 import _closure
+    res_ = Resolver(prog)
+    reach = set()
+    for f_ in prog.functions.values():
+        if f_.mod == SM and f_.parent is None:
+            reach |= _closure(prog, res_, f_, 4)
+    sites = [(fi, n, kind, name) for fi, n, kind, name in rules.rng_sites(prog) if fi.mod == SM or fi.qn in reach]
+    chk.floor("RNG draws under segmetrics", len(sites), 1)
     for fi, n, kind, name in sites:
         ok, why = rules.seeded(prog, eff, fi, n)
         chk.decide(ok, "seed-before-draw", f"{fi.name}: {norm(n)[:50]}", f"{fi.qn}::{norm(n)[:70]}", fi.loc(n), why, detail=why)
@@ -331,6 +351,22 @@ def d3(chk, prog):
     gens = [n for fi in prog.functions.values() if fi.mod == SM for n in own_nodes(fi.node) if isinstance(n, ast.Call) and norm(n.func) in ("np.random.default_rng", "np.random.RandomState", "np.random.Generator")]
     for g in gens:
         chk.note(f"explicit generator constructed: {norm(g)[:60]}")
+
+
+def _noise_helpers(prog, fc):
+    """repository functions reachable from `fc` (other than itself) that draw from a normal distribution"""
+    from .C10 import _closure
+    res_ = Resolver(prog)
+    out = []
+    for qn in sorted(_closure(prog, res_, fc, 3)):
+        f_ = prog.functions.get(qn)
+        if f_ is None or f_ is fc:
+            continue
+        if any(isinstance(n, ast.Call) and norm(n.func) in ("np.random.randn", "np.random.normal", "np.random.standard_normal") or
+               (isinstance(n, ast.Call) and isinstance(n.func, ast.Attribute) and n.func.attr in ("standard_normal", "normal") and "rng" in norm(n.func.value).lower())
+               for n in own_nodes(f_.node)):
+            out.append(f_)
+    return out
 
 
 def d5(chk, prog):
